@@ -361,6 +361,18 @@ fn dominant_frame(bt: &str) -> String {
     order.first().cloned().unwrap_or_else(|| "unknown".to_string())
 }
 
+/// `sylt_compiler::typechecker::TypeChecker::inner_copy` -> `sylt_compiler::typechecker`
+fn module_of(sym: &str) -> String {
+    let mut parts: Vec<&str> = sym.split("::").collect();
+    if parts.len() > 1 {
+        parts.pop();
+    }
+    while parts.len() > 1 && parts.last().map(|p| p.starts_with(|c: char| c.is_uppercase() || c == '<' || c == '{')).unwrap_or(false) {
+        parts.pop();
+    }
+    parts.join("::")
+}
+
 static MARKER_CSTR: std::sync::OnceLock<std::ffi::CString> = std::sync::OnceLock::new();
 
 extern "C" {
@@ -782,8 +794,10 @@ fn classify_death(status: std::process::ExitStatus, stderr_path: &Path, timeout_
     if timeout_marker.exists() {
         let txt = String::from_utf8_lossy(&std::fs::read(timeout_marker).unwrap_or_default()).to_string();
         let class = txt.lines().next().unwrap_or("timeout").to_string();
+        // the sampled frame depends on the moment the limit is hit: the signature names the module only
         let frame = dominant_frame_raw(&txt);
-        return ChildEnd::Died(format!("{}@{}", class, frame));
+        eprintln!("death diagnostics: {} in {}", class, frame);
+        return ChildEnd::Died(format!("{}@{}", class, module_of(&frame)));
     }
     let err = std::fs::read_to_string(stderr_path).unwrap_or_default();
     if err.contains("memory allocation of") || err.contains("alloc") && err.contains("failed") {
@@ -965,6 +979,7 @@ pub struct Cli {
     pub cases: Option<u64>,
     pub open_sigs: Vec<String>,
     pub shrink_death: Option<PathBuf>,
+    pub tape: Option<PathBuf>,
     pub skip: Vec<u64>,
 }
 
@@ -982,6 +997,7 @@ pub fn parse_cli(args: &[String]) -> Cli {
         cases: None,
         open_sigs: Vec::new(),
         shrink_death: None,
+        tape: None,
         skip: Vec::new(),
     };
     let mut i = 0;
@@ -996,6 +1012,7 @@ pub fn parse_cli(args: &[String]) -> Cli {
             "--replay" => cli.replay = next(&mut i).map(PathBuf::from),
             "--shrink-death" => cli.shrink_death = next(&mut i).map(PathBuf::from),
             "--eval-file" => cli.eval_file = next(&mut i).map(PathBuf::from),
+            "--tape" => cli.tape = next(&mut i).map(PathBuf::from),
             "--result" => cli.result = next(&mut i).map(PathBuf::from),
             "--skip" => {
                 if let Some(l) = next(&mut i) {
@@ -1036,6 +1053,9 @@ pub fn main_entry<C: Check>(check: &C, plan_for: impl Fn(Tier) -> Plan, args: &[
     if let Some(path) = cli.replay.as_ref() {
         return replay_main(check, &cli.cfg, path);
     }
+    if let Some(path) = cli.tape.as_ref() {
+        return tape_main(check, &cli.cfg, path);
+    }
     if let Some(path) = cli.shrink_death.as_ref() {
         // developer tool: minimise a stored case whose evaluation kills the process
         let (sig, case) = match load_replay_case(path) {
@@ -1061,6 +1081,66 @@ pub fn main_entry<C: Check>(check: &C, plan_for: impl Fn(Tier) -> Plan, args: &[
         return 0;
     }
     run_parent(check, &cli.cfg, &plan)
+}
+
+/// Triage of a fuzzer artifact (a raw choice tape): decode it exactly as the fuzz target does, store the case as a
+/// replay file and evaluate it in a child process under the usual limits. Exit 1 only for a violation whose
+/// signature is not an open known finding.
+fn tape_main<C: Check>(check: &C, cfg: &RunCfg, tape: &Path) -> i32 {
+    let data = match std::fs::read(tape) {
+        Ok(d) => d,
+        Err(e) => {
+            println!("INFRA: cannot read {}: {}", tape.display(), e);
+            return 2;
+        }
+    };
+    let mut u = Unstructured::new(&data);
+    let case = match guarded(|| check.generate(&mut u, Tier::Thorough)) {
+        Ok(Some(c)) => c,
+        _ => {
+            println!("tape: decodes to no case");
+            return 0;
+        }
+    };
+    let f = Found { signature: "fuzz/artifact".into(), detail: format!("decoded from fuzzer artifact {}", tape.display()), case_json: serde_json::to_value(&case).unwrap_or(Value::Null) };
+    let path = write_replay(check.id(), &f, cfg.seed, Tier::Thorough, "found");
+    let open: Vec<String> = load_known(check.id()).into_iter().filter(|k| k.status == "open").map(|k| k.signature).collect();
+    let v = match eval_in_child(check, cfg, &path, "tape") {
+        Ok(v) => v,
+        Err(ChildEndOrInfra::Died(c)) => match death_verdict(check, &c) {
+            Some(v) => v,
+            None => {
+                println!("tape: evaluating process died ({}); for this property that is a discarded case", c);
+                let _ = std::fs::remove_file(&path);
+                return 0;
+            }
+        },
+        Err(ChildEndOrInfra::Infra(e)) => {
+            println!("INFRA: {}", e);
+            return 2;
+        }
+    };
+    match v {
+        Verdict::Violation { signature, detail } => {
+            if open.iter().any(|k| k == &signature) {
+                println!("tape: open known finding {}", signature);
+                let _ = std::fs::remove_file(&path);
+                return 0;
+            }
+            let f2 = Found { signature: signature.clone(), detail: detail.clone(), case_json: f.case_json.clone() };
+            let _ = std::fs::remove_file(&path);
+            let path = write_replay(check.id(), &f2, cfg.seed, Tier::Thorough, "found");
+            println!("violation: {}", signature);
+            println!("{}", detail);
+            println!("VIOLATION property={} replay={}", check.id(), path.display());
+            1
+        }
+        _ => {
+            println!("tape: property holds on this case");
+            let _ = std::fs::remove_file(&path);
+            0
+        }
+    }
 }
 
 fn replay_main<C: Check>(check: &C, cfg: &RunCfg, path: &Path) -> i32 {
@@ -1435,7 +1515,7 @@ pub fn write_evidence<C: Check>(check: &C, cfg: &RunCfg, stats: &Stats, violatio
 // ------------------------------------------------------------------------------------------------
 
 /// One libFuzzer iteration: decode a case from `data`, evaluate it, and panic (= crash for libFuzzer) on a
-/// violation whose signature is not an open known finding. The replay file is written before panicking.
+/// violation whose signature is not an open known finding.
 pub fn fuzz_one<C: Check>(check: &C, data: &[u8]) {
     static KNOWN: std::sync::OnceLock<Vec<String>> = std::sync::OnceLock::new();
     crate::project::install_panic_hook();
@@ -1451,9 +1531,9 @@ pub fn fuzz_one<C: Check>(check: &C, data: &[u8]) {
         if known.iter().any(|k| k == &signature) {
             return;
         }
-        let f = Found { signature: signature.clone(), detail, case_json: serde_json::to_value(&case).unwrap_or(Value::Null) };
-        let p = write_replay(id, &f, 0, Tier::Thorough, "found");
-        eprintln!("VIOLATION property={} replay={} signature={}", id, p.display(), signature);
+        // the artifact (the tape) is triaged afterwards by `svcheck <id> thorough --tape <artifact>`, which writes the replay file
+        let _ = detail;
+        eprintln!("fuzz: violation candidate property={} signature={}", id, signature);
         std::process::abort();
     }
 }
